@@ -337,10 +337,16 @@ def own_set(prog, rep, rule_path):
 
         def chars_next(self, m, st, itref):
             if st.ext.get("reads", 0) == 0:
-                return LabelWorld.chars_next(self, m, st, itref)
+                r = LabelWorld.chars_next(self, m, st, itref)
+                if st.ext.get("scan"):
+                    # the rule starts by walking the label from its beginning: that read is not its own character
+                    raise AnalysisError("the rule reads the label from its start before looking at its own position")
+                return r
             raise StopOwn()
 
         def loop_arrival(self, m, st, fr, target):
+            if st.ext.get("reads", 0) == 0:
+                raise AnalysisError("the rule enters a loop before it has looked at its own character")
             raise StopOwn()
 
     class StopOwn(AnalysisError):
